@@ -433,7 +433,7 @@ def check(run):
                 "parser memo.")
     cg = callgraph(run.repo)
     run.calls.update(cg.stats)
-    r20a(run, cg)
-    r20b(run, cg)
-    r20c(run, cg)
-    r20d(run, cg)
+    run.rule(r20a, run, cg)
+    run.rule(r20b, run, cg)
+    run.rule(r20c, run, cg)
+    run.rule(r20d, run, cg)
